@@ -811,3 +811,5 @@ B('C08', 'annotation search does not look under binders', 'syntax/infertype.py',
 B('C20', 'HOL-level parser: multiplication and addition on one level', 'imperative/parser.py',
   '    ?times: times "*" atom -> times_expr | atom   // Multiplication binds tighter than addition\n\n    ?expr: expr "+" times -> plus_expr | times',
   '    ?expr: expr "+" expr -> plus_expr | expr "*" expr -> times_expr | atom', 'C20.P1', 'imperative/parser.py :: expr')
+B('C20', 'forall operands printed without brackets', IEXPR,
+  "            if isinstance(arg, (ITE, Forall)):", "            if isinstance(arg, ITE):", 'C20.P2', 'open-operand(Forall)')
